@@ -124,6 +124,9 @@ def flat(value):
     return out
 
 
+NONE = object()  # "assign None" (an accepted value for some attributes), as opposed to "no value domain known"
+
+
 def make_value(owner, cname, attr, seed, ent):
     """Return (value, expected_flat or None) for an assignment; None value => no domain known."""
     s = [int(v) for v in seed] or [1]
@@ -142,6 +145,8 @@ def make_value(owner, cname, attr, seed, ent):
         zero = {"rotation": 0.0, "dip": 0.0, "cost": 0.0, "end_of_hole": 0.0, "origin": [0.0, 0.0, 0.0],
                 "collar": [0.0, 0.0, 0.0], "name": "", "description": "", "last_focus": "", "units": "",
                 "metadata": None, "options": {}, "number_of_bins": None}
+        if attr == "color_map":
+            return NONE, None  # removing the colour map is an assignment like any other
         if attr in zero:
             if attr == "metadata" and ("survey" in type(ent).__module__ or cur is None):
                 return None, None
